@@ -543,6 +543,13 @@ def check_wrappers(prog, rep):
                       '(H + shift) v = H v + shift * v', f.lineno)
 
 
+def _test_atoms(test):
+    from ..pattern import _split
+    out = []
+    _split(test, True, out)
+    return out
+
+
 def check_eshift(prog, rep):
     m = prog.module(KRY)
     f = m.func('KrylovBased.__init__')
@@ -561,16 +568,28 @@ def check_eshift(prog, rep):
         rep.violation('KRYLOV-eshift', m, 'KrylovBased.__init__', 'shift-inside-projection',
                       'the energy shift must be added to H, and INSIDE an orthogonal projection '
                       '(otherwise the projected-out vectors are shifted as well)', f.lineno)
+    from ..cfg import CFG
     for qn in ('LanczosGroundState.run', 'Arnoldi.run'):
         f = m.func(qn)
         rep.instance('KRYLOV-eshift', {'function': qn})
-        ok = any(isinstance(st, ast.If) and unparse(st.test) == 'self.E_shift is not None' and (
-            'E0 -= self.E_shift' in unparse(st) or 'E0 = E0 - self.E_shift' in unparse(st))
-            for st in ast.walk(f))
-        if not ok:
+        removal = [st for st in ast.walk(f) if isinstance(st, ast.If) and any(
+            t == 'self.E_shift is None' and not pol or t == 'self.E_shift' and pol
+            for t, pol, _ in [(x[0], x[1], None) for x in _test_atoms(st.test)]) and (
+                'E0 -= self.E_shift' in unparse(st) or 'E0 = E0 - self.E_shift' in unparse(st))]
+        if not removal:
             rep.violation('KRYLOV-eshift', m, qn, 'shift-not-removed',
                           'the returned energy must have the shift subtracted again (iff it was '
                           'added)', f.lineno)
+            continue
+        # every exit that hands out the energy passes the removal (early exits included)
+        cfg = CFG(f)
+        for r in [st for st in ast.walk(f) if isinstance(st, ast.Return) and st.value is not None
+                  and 'E0' in names_in(st.value)]:
+            if not cfg.dominators_like_before(r, lambda n: n.stmt in removal):
+                rep.violation('KRYLOV-eshift', m, qn, 'shift-not-removed-on-exit',
+                              '`%s` returns the energy on a path that does not pass `if '
+                              'self.E_shift is not None: E0 -= self.E_shift`: that exit reports '
+                              'the eigenvalue of H + E_shift' % key_text(r)[:60], r.lineno)
     for qn in ('Arnoldi.run', 'ArnoldiEvolution.run'):
         if not m.has_func(qn):
             continue
